@@ -1449,7 +1449,11 @@ func NewPointFromBytes(b []byte) (Point, error) {
 				return nil, fmt.Errorf("unable to unmarshal field %s: %s", string(iter.FieldKey()), err)
 			}
 		case String:
-			// Skip since this won't return an error
+			// The value must be enclosed in double quotes, otherwise StringValue would
+			// slice out of range.
+			if v := p.it.valueBuf; len(v) < 2 || v[len(v)-1] != '"' {
+				return nil, fmt.Errorf("unable to unmarshal field %s: malformed string value", string(iter.FieldKey()))
+			}
 		case Boolean:
 			_, err := iter.BooleanValue()
 			if err != nil {
